@@ -34,7 +34,7 @@ def configs():
             for rx in range(4):
                 layouts = ["two_proc"] + (["one_proc"] if tx == 0 and rx == 0 else [])
                 for layout in layouts:
-                    cons = ["sync", "sync_uc", "receive", "async_with"] if api == "flag" else ["sync", "sync_uc", "mb_receive", "mb_exec_after"]
+                    cons = ["sync", "sync_uc", "receive", "async_with", "async_with_ret"] if api == "flag" else ["sync", "sync_uc", "mb_receive", "mb_exec_after"]
                     if layout == "one_proc":
                         cons = ["sync"]
                     for c in cons:
@@ -134,6 +134,10 @@ def render_src(cfg):
             L += ["        @cctx", "        async def consumer():", "            await self.c_take", "            await flag.receive()", "            self.got ^= True", f"            self.got_data <<= {rd}"]
         elif c == "async_with":
             L += ["        @cctx", "        async def consumer():", "            await self.c_take", "            async with flag:", "                self.got ^= True", f"                self.got_data <<= {rd}"]
+        elif c == "async_with_ret":
+            # the with-body sits in a sub-coroutine and may leave through a return: the flag is cleared on BOTH paths
+            L += ["        async def handle():", "            async with flag:", "                self.got ^= True", f"                self.got_data <<= {rd}", "                if self.c_take:", "                    return", "                self.got_data <<= " + rd]
+            L += ["        @cctx", "        async def consumer():", "            await self.c_take", "            await handle()"]
         elif c == "mb_exec_after":
             # the receive runs inside an executor that the context converts after its own body (std.Executor.make_after): the
             # flag's delay lines are then created while those executors are being converted
